@@ -316,6 +316,33 @@ pub fn get_jaccard_index_estimate<F: PartialEq + num::Zero + std::fmt::Debug>(
 
 //===========================================================================================
 
+// verification hooks: compiled only with `--cfg probminhash_verif`
+#[cfg(probminhash_verif)]
+impl<I, T, H: Hasher + Default> SuperMinHash2<I, T, H>
+where
+    I: Integer
+        + Unsigned
+        + ToPrimitive
+        + FromPrimitive
+        + Bounded
+        + Copy
+        + Clone
+        + Send
+        + Sync
+        + std::fmt::Debug,
+    T: Hash,
+{
+    /// (values, l, b, a_upper)
+    pub fn verif_state(&self) -> (Vec<usize>, Vec<usize>, Vec<usize>, usize) {
+        (
+            self.values.clone(),
+            self.l.clone(),
+            self.b.clone(),
+            self.a_upper,
+        )
+    }
+}
+
 #[cfg(test)]
 mod tests {
     use super::*;
